@@ -102,6 +102,10 @@ fn stmts(name: &str) -> Vec<(&'static str, [String; 3])> {
         v.push(("pg type alter name", pg(Type::alter().name(n()).add_value(Alias::new("x")).to_string(PostgresQueryBuilder))));
         v.push(("pg type rename to", pg(Type::alter().name(a()).rename_to(n()).to_string(PostgresQueryBuilder))));
     }
+    // Func::cast_as_quoted takes the quote to use: the backend's own
+    v.push(("cast_as_quoted type", [Query::select().expr(Func::cast_as_quoted("x", n(), Quote::new(b'`'))).to_owned().to_string(MysqlQueryBuilder),
+                                    Query::select().expr(Func::cast_as_quoted("x", n(), Quote::new(b'"'))).to_owned().to_string(PostgresQueryBuilder),
+                                    Query::select().expr(Func::cast_as_quoted("x", n(), Quote::new(b'"'))).to_owned().to_string(SqliteQueryBuilder)]));
     v.push(("enum cast type", [String::new(), Query::select().expr(Expr::val("x").as_enum(Alias::new(name))).to_owned().to_string(PostgresQueryBuilder), String::new()]));
     v.push(("on conflict excluded", [String::new(), Query::insert().into_table(a()).columns([Alias::new(name)]).values_panic([1.into()]).on_conflict(OnConflict::column(Alias::new(name)).update_column(Alias::new(name)).to_owned()).to_owned().to_string(PostgresQueryBuilder), String::new()]));
     v
